@@ -435,10 +435,18 @@ def run(ctx):
                        "encode∘decode is a stated hypothesis), reference counting/memory of the generated code, the "
                        "selection logic in PyrexTypes (which template is instantiated for which type) — these are carried "
                        "by the differential leg only.  Objects with custom __iter__/__len__/items()/__index__ are not generated.")
+    ctx.rule += ("  Composition leg: per group of types with coinciding C declarations, combined modules in both declaration "
+                 "orders vs modules with a single type, all helper families, ~25 element values at each position.")
+    ctx.explanation += ("  The theorems speak about one type at a time: that helpers generated for different element types do "
+                        "not share a name inside a module is only searched (composition leg + helper-name obligation).")
     ctx.assumptions = ["Python set/dict iteration order seen by the implementation equals the order computed by the input "
                        "encoder (both children run with PYTHONHASHSEED=0)",
                        "unordered_set/unordered_map iteration order is not observable after to_py (results canonicalised)"]
     rc = getattr(ctx, "replay_case", None)
+    import c33_compose
+    if rc and "case" in rc and "compose_group" in rc["case"]:
+        c33_compose.run_leg(ctx, only_group=rc["case"]["compose_group"])
+        return
     if rc and "case" in rc and "T" in rc["case"]:
         c = rc["case"]
         T = tup(c["T"])
@@ -479,3 +487,4 @@ def run(ctx):
             for cls, s in gen_cases(ctx, T, mods[mi]["mode"]):
                 more.append((mi, k, T, mods[mi]["mode"], cls, s))
         evaluate(ctx, mods, more, oracle_only=True)
+    c33_compose.run_leg(ctx)
